@@ -27,7 +27,8 @@ Proof.
     rewrite forallb_forall in H. specialize (H p Hp). apply andb_true_iff in H as [H1 H2].
     split; apply agreeb_agree; assumption.
   - intros e He.
-    assert (H : forallb entity_tieb (inv_entities live) = true) by (vm_compute; reflexivity).
+    assert (H : forallb (fun e => agreeb (ei_help_struct e) (ei_help_rendered e)) (inv_entities live) = true)
+      by (vm_compute; reflexivity).
     rewrite forallb_forall in H. apply agreeb_agree. exact (H e He).
 Qed.
 
@@ -40,18 +41,21 @@ Lemma live_accepted_eq_documented :
   (forall t, In t (inv_entity_types_program live) -> exists e, In e (inv_entities live) /\ ei_type e = t).
 Proof.
   destruct live_holds as [H1 [H2 [H3 [H4 _]]]]. destruct live_rendered_agree as [R1 R2].
-  repeat split.
-  - apply (H1 p H).
-  - apply (H1 p H).
-  - apply (R1 p H).
-  - apply (R1 p H).
-  - apply (H2 s H).
-  - apply (H2 s H).
-  - apply (H3 e H).
-  - apply (H3 e H).
-  - apply (R2 e H).
-  - apply (R2 e H).
+  split; [|split; [|split]].
+  - intros p Hp. split; [apply (H1 p Hp) | apply (R1 p Hp)].
+  - intros s Hs. apply (H2 s Hs).
+  - intros e He. split; [apply (H3 e He) | apply (R2 e He)].
   - exact H4.
+Qed.
+
+(** in every way of running a test case that the inventory probes *)
+Lemma live_accepted_in_every_way_of_running :
+  (forall p m, In p (inv_phases live) -> In m (pi_modes p) -> mode_ok (pi_help_struct p) m) /\
+  (forall e m, In e (inv_entities live) -> In m (ei_modes e) -> mode_ok (ei_help_struct e) m).
+Proof.
+  destruct live_holds as [H1 [_ [H3 _]]]. split.
+  - intros p m Hp Hm. destruct (H1 p Hp) as [_ [_ H]]. apply H. exact Hm.
+  - intros e m He Hm. destruct (H3 e He) as [_ [_ H]]. apply H. exact Hm.
 Qed.
 
 Lemma live_every_help_request_succeeds :
